@@ -2,8 +2,8 @@
 
 (1) The real linter is run the way scripts/ci/lint_cpp.sh runs it (ply/colorama stand-ins) over client/catapult: every suite must
     print zero failures, every SUMMARY must be SUCCESS, exit status 0; output only under the run's scratch directory.
-(2) Translator: the regular expressions of the typo list and of the single-regex validators are read from validation.py with `ast`
-    on every run into Generated/LintTables.lean (regex AST + a witness per entry); `typo_witnesses` re-checks them in the kernel.
+(2) Translator: the regular expressions of the typo list and of the single-regex validators are read off the instantiated validators of the running linter
+    (translate/pyruntime.py) on every run into Generated/LintTables.lean (regex AST + a witness per entry); `typo_witnesses` re-checks them in the kernel.
 (3) Seeded edits from the catalogue below are applied to scratch copies (same relative path) at sampled applicable lines and linted
     in-process with the real Analyzer: the rule must be reported for that file (at the line where the rule reports one), the same
     reports must come out when the file is linted after a different dirty file with the same Analyzer (state leakage through
@@ -175,49 +175,64 @@ def finish_full_run(ctx, full):
 # region (2) translator: the regular expressions of validation.py
 
 
+VALIDATOR_PATTERNS = (
+	'[[type(v).__name__, name, ['
+	'[p.pattern, p.flags, m if isinstance(m, str) else None] for p, m in ('
+	'[(k, val) for k, val in x.items() if hasattr(k, "pattern")] if isinstance(x, dict) else '
+	'[(k, None) for k in x if hasattr(k, "pattern")] if isinstance(x, (list, tuple)) else '
+	'[(x, None)] if hasattr(x, "pattern") else [])]] '
+	'for v in create_validators() for name, x in vars(v).items()]')
+_REGEX_CACHE = {}
+
+
 def extract_regexes():
-	"""Every `re.compile(<constant>)` of validation.py with the class it belongs to, in source order; the typo list with messages.
+	"""Every compiled pattern the validators of the RUNNING linter hold (validation.create_validators() is instantiated in a fresh
+	interpreter through translate/pyruntime.py and the instances are inspected: attributes that are patterns, lists of patterns, or
+	dicts keyed by patterns - the typo list with its messages), the line length limit and the licence digest.
 
-	Returns (entries, typo_count, constants). entries: dict(id, owner, source, message)."""
-	from translate import pyregex  # pylint: disable=import-outside-toplevel
-	path = os.path.join(REPO, 'linters/cpp/validation.py')
-	with open(path, 'rt', encoding='utf8') as infile:
-		tree = ast.parse(infile.read(), path)
+	Returns (entries, typo_count, constants). entries: dict(id, owner, attribute, source, message); the typo list comes first, in the
+	order in which TypoChecker.check walks it."""
+	if REPO in _REGEX_CACHE:
+		return _REGEX_CACHE[REPO]
+	from translate import pyregex, pyruntime  # pylint: disable=import-outside-toplevel
+	limit = '[v.line_length_limit for v in create_validators() if hasattr(v, "line_length_limit")]'
+	digest = '[v.expected_hash for v in create_validators() if hasattr(v, "expected_hash")]'
+	answers = pyruntime.values(REPO, 'validation', [VALIDATOR_PATTERNS, limit, digest])
 	entries = []
-	constants = {}
-	for node in tree.body:
-		if not isinstance(node, ast.ClassDef):
-			continue
-		messages = {}
-		for inner in ast.walk(node):
-			if isinstance(inner, ast.Dict):
-				for key, value in zip(inner.keys, inner.values):
-					if _is_compile(key) and isinstance(value, ast.Constant):
-						messages[id(key)] = value.value
-			if 'LineLengthValidator' == node.name and isinstance(inner, ast.FunctionDef) and '__init__' == inner.name:
-				defaults = inner.args.defaults
-				if defaults and isinstance(defaults[0], ast.Constant):
-					constants['lineLengthLimit'] = defaults[0].value
-		calls = sorted((inner for inner in ast.walk(node) if _is_compile(inner)), key=lambda call: (call.lineno, call.col_offset))
-		for call in calls:
-			entries.append({'owner': node.name, 'source': call.args[0].value, 'message': messages.get(id(call)), 'line': call.lineno})
-	# the typo list first (ids are positions)
-	entries.sort(key=lambda entry: (0 if 'TypoChecker' == entry['owner'] else 1, entry['line']))
-	for index, entry in enumerate(entries):
+	problems = []
+	for owner, attribute, patterns in answers[VALIDATOR_PATTERNS]:
+		for source, flags, message in patterns:
+			if flags & ~32:  # anything but re.UNICODE
+				problems.append(f'{owner}.{attribute}: pattern {source!r} is compiled with flags {flags} (not modelled)')
+				continue
+			entries.append({'owner': owner, 'attribute': attribute, 'source': source, 'message': message})
+	entries.sort(key=lambda entry: 0 if 'TypoChecker' == entry['owner'] else 1)  # stable: the typo list first
+	kept = []
+	for entry in entries:
+		try:
+			entry['ast'] = pyregex.parse(entry['source'])
+			entry['witness'] = pyregex.witness(entry['source'], entry['ast'])
+			entry['features'] = pyregex.features(entry['ast'])
+			kept.append(entry)
+		except (pyregex.Unsupported, re.error) as ex:
+			problems.append(f'{entry["owner"]}.{entry["attribute"]}: pattern {entry["source"]!r} is outside the modelled regex subset: {ex}')
+	for index, entry in enumerate(kept):
 		entry['id'] = index
-		entry['ast'] = pyregex.parse(entry['source'])
-		entry['witness'] = pyregex.witness(entry['source'], entry['ast'])
-		entry['features'] = pyregex.features(entry['ast'])
-	typo_count = sum(1 for entry in entries if 'TypoChecker' == entry['owner'])
-	if 'lineLengthLimit' not in constants:
-		raise ValueError('LineLengthValidator limit not found')
-	return entries, typo_count, constants
-
-
-def _is_compile(node):
-	return (
-		isinstance(node, ast.Call) and isinstance(node.func, ast.Attribute) and 'compile' == node.func.attr and isinstance(node.func.value, ast.Name)
-		and 're' == node.func.value.id and node.args and isinstance(node.args[0], ast.Constant) and isinstance(node.args[0].value, str))
+	typo_count = sum(1 for entry in kept if 'TypoChecker' == entry['owner'])
+	constants = {'problems': problems}
+	if 1 == len(set(answers[limit])):
+		constants['lineLengthLimit'] = answers[limit][0]
+	else:
+		problems.append(f'line length limit of the validators: {answers[limit]} (expected exactly one)')
+		constants['lineLengthLimit'] = (answers[limit] or [0])[0]
+	hashes = [item['hex'] for item in answers[digest] if isinstance(item, dict) and 'hex' in item]
+	if 1 != len(hashes):
+		problems.append(f'licence digest of the validators: {answers[digest]} (expected exactly one)')
+	constants['copyrightSha1Hex'] = hashes[0].upper() if hashes else ''
+	if not typo_count:
+		problems.append('no validator with a typo list (a dict keyed by compiled patterns) was found')
+	_REGEX_CACHE[REPO] = (kept, typo_count, constants)
+	return _REGEX_CACHE[REPO]
 
 
 def parse_deps_config():
@@ -241,21 +256,21 @@ def parse_deps_config():
 
 
 def translate(_ctx):
+	try:
+		return _translate()
+	except Exception as ex:  # pylint: disable=broad-except
+		return [f'translator: the tables could not be obtained from the running linter: {type(ex).__name__}: {str(ex)[:400]}']
+
+
+def _translate():
 	from translate import pyregex  # pylint: disable=import-outside-toplevel
 	entries, typo_count, constants = extract_regexes()
-	problems = []
+	problems = [f'translator: {problem}' for problem in constants['problems']]
 
 	def row(entry):
 		return f'  -- {entry["id"]}: {entry["owner"]} {entry["source"]!r}\n  (({pyregex.lean_re(entry["ast"])}), {pyregex.lean_chars(entry["witness"])})'
 
-	hashes = []
-	path = os.path.join(REPO, 'linters/cpp/validation.py')
-	with open(path, 'rt', encoding='utf8') as infile:
-		match = re.search(r"expected_hash = unhexlify\('([0-9a-fA-F]{40})'\)", infile.read())
-		if match:
-			hashes.append(match.group(1))
-		else:
-			problems.append('translator: CopyrightCommentValidator.expected_hash not found')
+	hashes = [constants['copyrightSha1Hex']] if constants['copyrightSha1Hex'] else []
 	deps = parse_deps_config()
 	names = sorted({name for src, dst in deps['lines'] for name in (src, dst)} | {name for values in deps['defines'].values() for name in values})
 	for name in names:
@@ -276,10 +291,10 @@ def translate(_ctx):
 		'open SymbolVerif.Lint.Regex\n'
 		'/-- the typo list: (pattern, witness) -/\n'
 		'def typoTable : List (RE × List Char) := [\n' + ',\n'.join(row(entry) for entry in entries[:typo_count]) + ']\n'
-		'/-- every other compiled pattern of validation.py: (pattern, witness) -/\n'
+		'/-- every other compiled pattern the validators hold: (pattern, witness) -/\n'
 		'def validatorTable : List (RE × List Char) := [\n' + ',\n'.join(row(entry) for entry in entries[typo_count:]) + ']\n'
 		f'def lineLengthLimit : Nat := {constants["lineLengthLimit"]}\n'
-		f'def copyrightSha1Hex : String := "{hashes[0].upper() if hashes else ""}"\n'
+		f'def copyrightSha1Hex : String := "{hashes[0] if hashes else ""}"\n'
 		+ deps_text +
 		'end SymbolVerif.Generated.Lint\n')
 	write_if_changed(os.path.join(LEAN, 'SymbolVerif', 'Generated', 'LintTables.lean'), text)
